@@ -1,17 +1,23 @@
 package c13
 
 import (
+	"bytes"
 	"context"
 	"fmt"
+	"io"
+	"net/http"
 	"os"
+	"path/filepath"
 	"sync"
 	"time"
 
 	"github.com/superfly/litefs"
+	lfshttp "github.com/superfly/litefs/http"
 
 	"lfsverif/internal/cluster"
 	"lfsverif/internal/common"
 	"lfsverif/internal/hist"
+	"lfsverif/internal/lfs"
 )
 
 func commitOn(c *common.Ctx, r *common.Rand, n *cluster.Node, k int) error {
@@ -81,6 +87,32 @@ func primaryChange(c *common.Ctx, r *common.Rand) error {
 	}
 	c.Evaluations++
 	c.Distinct("primary-change-while-halted")
+	// the holder's commit is still on its way to the node that granted the lock: that node is not primary any more
+	if !p.Store.IsPrimary() && pdb.VerifHaltLockID() == 21 {
+		im, _ := lfs.ReadImage(filepath.Dir(pdb.DatabasePath()))
+		if im != nil && len(im.Pages) > 0 {
+			pt0, pc0 := pos(p)
+			tgt := uint32(len(im.Pages))
+			pg := lfs.MakePage(im.PageSize, tgt, 616161, tgt, false)
+			nim := im.Clone()
+			nim.Pages[tgt-1] = pg
+			body := buildLTX(uint32(im.PageSize), tgt, pt0+1, pc0, nim.Checksum(), map[uint32][]byte{tgt: pg})
+			req, _ := http.NewRequest("POST", fmt.Sprintf("%s/tx?name=%s&lockID=21", p.Server.URL(), dbName), bytes.NewReader(body))
+			req.Header.Set(lfshttp.HeaderNodeID, litefs.FormatNodeID(rn.Store.ID()))
+			code := 0
+			if resp, err := http.DefaultClient.Do(req); err == nil {
+				code = resp.StatusCode
+				_, _ = io.Copy(io.Discard, resp.Body)
+				resp.Body.Close()
+			}
+			pt1, pc1 := pos(p)
+			c.Evaluations++
+			if pt1 != pt0 || pc1 != pc0 || (code >= 200 && code < 300) {
+				c.Violate("C13:primary-change:forward-to-former-primary", fmt.Sprintf("the node that granted the halt lock is no longer primary; a forwarded transaction from the holder was answered %d and moved it from (%d,%016x) to (%d,%016x)", code, pt0, pc0, pt1, pc1), rep)
+				return nil
+			}
+		}
+	}
 	// the holder never releases; the lock is overdue at t0 + ttl at the latest
 	for pdb.VerifHaltLockID() != 0 && time.Since(t0) < ttl+2*time.Second {
 		time.Sleep(5 * time.Millisecond)
